@@ -508,3 +508,172 @@ Proof.
   { unfold dec_top. apply dec_encode; [exact Hwf|]. rewrite app_length. lia. }
   split; [exact H|]. unfold decode. now rewrite H.
 Qed.
+
+(* ---- p6: resources ---- *)
+
+Lemma cost_S f b : cost (S f) b =
+    match b with
+    | [] => (0, 1)
+    | ty :: _ =>
+      if ty =? pv_tag_list then
+        if len b <? 5 then (0, 1) else
+        match sub b 1 4 with
+        | None => (0, 1)
+        | Some l4 =>
+          let r := list_cost (dec f) (cost f) (S f) (unle l4) b 5 (0, 0) in
+          (list_request (unle l4) (len b - 5) + fst r, 1 + snd r)
+        end
+      else if ty =? pv_tag_map then
+        if len b <? 5 then (0, 1) else
+        match sub b 1 4 with
+        | None => (0, 1)
+        | Some l4 =>
+          let r := map_cost (dec f) (cost f) (S f) (unle l4) b 5 (0, 0) in
+          (fst r, 1 + snd r)
+        end
+      else (0, 1)
+    end.
+Proof. reflexivity. Qed.
+
+(* ---- depth: at most one level per 5 input bytes ---- *)
+Lemma list_cost_depth rec cst b D :
+  (forall rest, len rest + 5 <= len b -> snd (cst rest) <= D) ->
+  forall k count pos acc, 5 <= pos -> snd acc <= D -> snd (list_cost rec cst k count b pos acc) <= D.
+Proof.
+  intros Hc. induction k as [|k IH]; intros count pos acc Hpos Hacc; cbn [list_cost].
+  - destruct (count =? 0); exact Hacc.
+  - destruct (count =? 0); [exact Hacc|].
+    destruct (from b pos) as [rest|] eqn:Hr; [|exact Hacc].
+    apply from_some in Hr as (Hle & _ & Hl). cbv zeta.
+    assert (Hd : N.max (snd acc) (snd (cst rest)) <= D) by (apply N.max_lub; [exact Hacc|apply Hc; lia]).
+    destruct (rec rest) as [[v c]| | |]; cbn [snd]; try exact Hd.
+    apply IH; [lia|exact Hd].
+Qed.
+Lemma map_cost_depth rec cst b D :
+  (forall rest, len rest + 5 <= len b -> snd (cst rest) <= D) ->
+  forall k count pos acc, 5 <= pos -> snd acc <= D -> snd (map_cost rec cst k count b pos acc) <= D.
+Proof.
+  intros Hc. induction k as [|k IH]; intros count pos acc Hpos Hacc; cbn [map_cost].
+  - destruct (count =? 0); exact Hacc.
+  - destruct (count =? 0); [exact Hacc|].
+    destruct (len b <? pos + 4); [exact Hacc|].
+    destruct (sub b pos 4) as [kl|]; [|exact Hacc]. cbv zeta.
+    destruct (len b <? pos + 4 + unle kl); [exact Hacc|].
+    destruct (sub b (pos + 4) (unle kl)) as [key|]; [|exact Hacc].
+    destruct (negb (utf8_valid key)); [exact Hacc|].
+    destruct (from b (pos + 4 + unle kl)) as [rest|] eqn:Hr; [|exact Hacc].
+    apply from_some in Hr as (Hle & _ & Hl).
+    assert (Hd : N.max (snd acc) (snd (cst rest)) <= D) by (apply N.max_lub; [exact Hacc|apply Hc; lia]).
+    destruct (rec rest) as [[v c]| | |]; cbn [snd]; try exact Hd.
+    apply IH; [lia|exact Hd].
+Qed.
+
+Lemma cost_depth fuel : forall b, 5 * snd (cost fuel b) <= len b + 5.
+Proof.
+  induction fuel as [|f IH]; intros b; [cbn; lia|].
+  rewrite cost_S. destruct b as [|ty t] eqn:Eb; [cbn; lia|]. rewrite <- Eb.
+  destruct (ty =? pv_tag_list).
+  { destruct (len b <? 5) eqn:E; [cbn; lia|]. destruct (sub b 1 4); [|cbn; lia]. cbv zeta. cbn [snd].
+    pose proof (list_cost_depth (dec f) (cost f) b ((len b) / 5)) as H.
+    assert (Hr : forall rest, len rest + 5 <= len b -> snd (cost f rest) <= len b / 5).
+    { intros rest Hl. specialize (IH rest). apply N.div_le_lower_bound; lia. }
+    specialize (H Hr (S f) (unle b0) 5 (0, 0) ltac:(lia) ltac:(cbn; lia)).
+    pose proof (N.mul_div_le (len b) 5 ltac:(lia)). lia. }
+  destruct (ty =? pv_tag_map).
+  { destruct (len b <? 5) eqn:E; [cbn; lia|]. destruct (sub b 1 4); [|cbn; lia]. cbv zeta. cbn [snd].
+    pose proof (map_cost_depth (dec f) (cost f) b ((len b) / 5)) as H.
+    assert (Hr : forall rest, len rest + 5 <= len b -> snd (cost f rest) <= len b / 5).
+    { intros rest Hl. specialize (IH rest). apply N.div_le_lower_bound; lia. }
+    specialize (H Hr (S f) (unle b0) 5 (0, 0) ltac:(lia) ltac:(cbn; lia)).
+    pose proof (N.mul_div_le (len b) 5 ltac:(lia)). lia. }
+  cbn. lia.
+Qed.
+
+Theorem depth_bounded b : 5 * depth b <= len b + 5.
+Proof. apply cost_depth. Qed.
+
+(* ---- p7: resources ---- *)
+
+Lemma prealloc2 : pv_list_prealloc = 2. Proof. reflexivity. Qed.
+Lemma list_request_0 c r : list_request c r = 0.
+Proof. unfold list_request. rewrite prealloc2. reflexivity. Qed.
+
+(* elements held in containers: below the consumed length on success, below the input length otherwise *)
+Definition abound (b : bytes) (r : res (pv * N)) (a : N) : Prop :=
+  match r with Ok (_, c) => a + 1 <= c | _ => a <= len b end.
+
+Lemma list_cost_alloc rec cst b :
+  (forall rest, len rest < len b -> good rest (rec rest) /\ abound rest (rec rest) (fst (cst rest))) ->
+  forall k count pos accl acc, 1 <= pos <= len b ->
+  match list_loop rec k count b pos accl with
+  | Ok (_, c) => fst (list_cost rec cst k count b pos acc) + pos <= fst acc + c
+  | _ => fst (list_cost rec cst k count b pos acc) + pos <= fst acc + len b
+  end.
+Proof.
+  intros Hrec. induction k as [|k IH]; intros count pos accl acc Hpos; cbn [list_loop list_cost].
+  - destruct (count =? 0); lia.
+  - destruct (count =? 0); [lia|].
+    destruct (from_total b pos) as [rest Hr]; [lia|]. rewrite Hr.
+    apply from_some in Hr as (_ & _ & Hl). cbv zeta.
+    destruct (Hrec rest ltac:(lia)) as ((_ & _ & Hb) & Ha). unfold abound in Ha.
+    destruct (rec rest) as [[item c]| | |]; cbn [fst]; try lia.
+    specialize (Hb _ _ eq_refl).
+    specialize (IH (count - 1) (pos + c) (item :: accl) (fst acc + fst (cst rest) + 1, N.max (snd acc) (snd (cst rest))) ltac:(lia)).
+    cbn [fst] in IH. destruct (list_loop rec k (count - 1) b (pos + c) (item :: accl)) as [[v cf]| | |]; lia.
+Qed.
+
+Lemma map_cost_alloc rec cst b :
+  (forall rest, len rest < len b -> good rest (rec rest) /\ abound rest (rec rest) (fst (cst rest))) ->
+  forall k count pos m acc, 1 <= pos <= len b ->
+  match map_loop rec k count b pos m with
+  | Ok (_, c) => fst (map_cost rec cst k count b pos acc) + pos <= fst acc + c
+  | _ => fst (map_cost rec cst k count b pos acc) + pos <= fst acc + len b
+  end.
+Proof.
+  intros Hrec. induction k as [|k IH]; intros count pos m acc Hpos; cbn [map_loop map_cost].
+  - destruct (count =? 0); lia.
+  - destruct (count =? 0); [lia|].
+    destruct (len b <? pos + 4) eqn:E1; [lia|].
+    destruct (sub_total b pos 4) as (kl & Hkl & _); [lia|]. rewrite Hkl. cbv zeta.
+    destruct (len b <? pos + 4 + unle kl) eqn:E2; [lia|].
+    destruct (sub_total b (pos + 4) (unle kl)) as (key & Hkey & _); [lia|]. rewrite Hkey.
+    destruct (negb (utf8_valid key)); [lia|].
+    destruct (from_total b (pos + 4 + unle kl)) as [rest Hr]; [lia|]. rewrite Hr.
+    apply from_some in Hr as (_ & _ & Hl).
+    destruct (Hrec rest ltac:(lia)) as ((_ & _ & Hb) & Ha). unfold abound in Ha.
+    destruct (rec rest) as [[item c]| | |]; cbn [fst]; try lia.
+    specialize (Hb _ _ eq_refl).
+    specialize (IH (count - 1) (pos + 4 + unle kl + c) (map_insert key item m) (fst acc + fst (cst rest) + 1, N.max (snd acc) (snd (cst rest))) ltac:(lia)).
+    cbn [fst] in IH. destruct (map_loop rec k (count - 1) b (pos + 4 + unle kl + c) (map_insert key item m)) as [[v cf]| | |]; lia.
+Qed.
+
+Lemma cost_alloc fuel : forall b, (length b < fuel)%nat -> abound b (dec fuel b) (fst (cost fuel b)).
+Proof.
+  induction fuel as [|f IH]; intros b Hf; [lia|].
+  pose proof (dec_good (S f) b Hf) as (_ & _ & Hgood).
+  assert (Hrec : forall rest, len rest < len b -> good rest (dec f rest) /\ abound rest (dec f rest) (fst (cost f rest))).
+  { intros rest Hl. split; [apply dec_good|apply IH]; unfold len in *; lia. }
+  rewrite cost_S. destruct b as [|ty t] eqn:Eb; [cbn; lia|].
+  destruct (ty =? pv_tag_list) eqn:EL.
+  { apply N.eqb_eq in EL. subst ty. rewrite dec_S_list. rewrite <- Eb in *.
+    destruct (len b <? 5) eqn:E; [cbn; lia|].
+    destruct (sub_total b 1 4) as (l4 & Hl4 & _); [lia|]. rewrite Hl4. cbv zeta. cbn [fst].
+    rewrite list_request_0.
+    pose proof (list_cost_alloc (dec f) (cost f) b Hrec (S f) (unle l4) 5 [] (0, 0) ltac:(lia)) as H.
+    unfold abound. destruct (list_loop (dec f) (S f) (unle l4) b 5 []) as [[v c]| | |]; cbn [fst] in H; lia. }
+  destruct (ty =? pv_tag_map) eqn:EM.
+  { apply N.eqb_eq in EM. subst ty. rewrite dec_S_map. rewrite <- Eb in *.
+    destruct (len b <? 5) eqn:E; [cbn; lia|].
+    destruct (sub_total b 1 4) as (l4 & Hl4 & _); [lia|]. rewrite Hl4. cbv zeta. cbn [fst].
+    pose proof (map_cost_alloc (dec f) (cost f) b Hrec (S f) (unle l4) 5 [] (0, 0) ltac:(lia)) as H.
+    unfold abound. destruct (map_loop (dec f) (S f) (unle l4) b 5 []) as [[v c]| | |]; cbn [fst] in H; lia. }
+  cbn [fst]. unfold abound. destruct (dec (S f) (ty :: t)) as [[v c]| | |]; try lia.
+  specialize (Hgood _ _ eq_refl). lia.
+Qed.
+
+Theorem alloc_bounded b : alloc_request b <= len b.
+Proof.
+  pose proof (cost_alloc (S (length b)) b ltac:(lia)) as H. unfold abound in H. fold (dec_top b) in H.
+  pose proof (dec_top_good b) as (_ & _ & Hg). unfold alloc_request.
+  destruct (dec_top b) as [[v c]| | |]; try lia. specialize (Hg _ _ eq_refl). lia.
+Qed.
